@@ -1,3 +1,4 @@
+import NgoVerif.Generated.Tables
 import NgoVerif.Model.Cleanup
 import NgoVerif.Meta.M6
 import NgoVerif.Proofs.C08sem
@@ -150,5 +151,11 @@ can never hold" and nothing else changes meaning. -/
 theorem C08_remove_boolean_strongeq (P : Sem.PParams) (prg : Prog) :
     Sem.StrongEq P prg (prg.filterMap removeBoolean) :=
   Proofs.StrongEq.removeBoolean_strongEq P prg
+
+/-- `api.optimize` (read from the source on every run) constructs this pass with the current program and the caller's
+own declaration lists, under the parameter names the class declares, and replaces the current program by its result -/
+theorem C08_wiring :
+    Tables.API_ARGS.lookup "cleanup" = some (["input_predicates"], "input_", "input_") ∧
+    Tables.CTOR_PARAMS.lookup "cleanup" = some ["input_predicates"] := by decide
 
 end NgoVerif
